@@ -169,13 +169,21 @@ class Denoter:
             ch = ch[1:]
             self.features.add("leading_choice_operator")
         alts: list[list] = [[]]
+        spans: list[list] = [[]]
         for c in ch:
             if c[0] == "choice_operator":
                 alts.append([])
+                spans.append([])
             elif c[0] == "sequence_operator":
                 pass
             else:
                 alts[-1].append(self.term(c, ctx))
+                spans[-1].append((c[3][0][1], c[3][-1][2]))
+        for sp in spans:
+            if len(sp) >= 3:
+                self.sites.append({"kind": "seq_chain", "terms": sp, "rule": self.cur_rule, "modifier": self.cur_mod, "ctx": ctx})
+        if len(spans) >= 3 and all(spans):
+            self.sites.append({"kind": "alt_chain", "terms": [(sp[0][0], sp[-1][1]) for sp in spans], "rule": self.cur_rule, "modifier": self.cur_mod, "ctx": ctx})
         seqs = [flat("seq", a) for a in alts]
         self.depth -= 1
         return flat("alt", seqs)
@@ -236,7 +244,7 @@ class Denoter:
             node = ("tag", tag, node)
         self.sites.append(
             {
-                "kind": "term", "span": (p[1], p[2]), "node_span": (node_start, node_end), "rule": self.cur_rule, "modifier": self.cur_mod,
+                "kind": "term", "span": (p[1], p[2]), "tight_span": (ch[0][1], ch[-1][2]), "node_span": (node_start, node_end), "rule": self.cur_rule, "modifier": self.cur_mod,
                 "ctx": ctx, "tagged": tag is not None, "prefix": len(pre), "postfix": npost, "node_kind": node_kind,
             }
         )
